@@ -474,3 +474,23 @@ func channelWired(c *Ctx, rule string, svc Service) {
 		}
 	}
 }
+
+// portTableField: the Honeytrap field that maps a listening address to its services (map[net.Addr][]*ServiceMap), by type.
+func portTableField(p *Program) string {
+	ht := p.Type("server", "Honeytrap")
+	if ht == nil {
+		return "ports"
+	}
+	f := fieldByType(ht, func(t types.Type) bool {
+		m, ok := t.Underlying().(*types.Map)
+		if !ok {
+			return false
+		}
+		kn := NamedOf(m.Key())
+		return kn != nil && kn.Obj().Pkg() != nil && kn.Obj().Pkg().Path() == "net" && kn.Obj().Name() == "Addr"
+	})
+	if f == "" {
+		return "ports"
+	}
+	return f
+}
